@@ -124,4 +124,77 @@ theorem releaseAll_footprint (a : Alloc) (pl rn : Entry → Bool) (es : List Ent
     · have := releaseEntry_footprint a pl rn e ip' hc
       exact ⟨e, by simp, this.1, this.2⟩
 
+/-! ### the handler as written (two loops) -/
+
+theorem releaseRequest_state (a : Alloc) (pl rn : Entry → Bool) (es : List Entry) :
+    (releaseRequest a pl rn es).1 = releaseAll a pl rn es := by
+  simp only [releaseRequest]
+  induction es generalizing a with
+  | nil => rfl
+  | cons e es ih =>
+    by_cases h : releasable e (pl e) = true
+    · simp only [List.filter_cons, h, if_true, releaseLoop, releaseAll, releaseEntry]
+      exact ih _
+    · simp only [List.filter_cons, h, releaseAll, releaseEntry]
+      exact ih _
+
+theorem apiRelease_none_stays (a : Alloc) (running : Bool) (ip : Nat) (key : Str) (ip' : Nat)
+    (h : a.get ip' = none) : (apiRelease a running ip key).1.get ip' = none := by
+  cases hc : (apiRelease a running ip key).1.get ip' with
+  | none => rfl
+  | some k =>
+    have := apiRelease_footprint a running ip key ip' (by rw [hc, h]; simp)
+    rw [this.1] at h
+    rw [h] at this
+    exact absurd this.2 (by simp)
+
+theorem releaseLoop_none_stays (a : Alloc) (rn : Entry → Bool) (es : List Entry) (ip' : Nat)
+    (h : a.get ip' = none) : (releaseLoop a rn es).1.get ip' = none := by
+  induction es generalizing a with
+  | nil => exact h
+  | cons e es ih =>
+    simp only [releaseLoop]
+    exact ih _ (apiRelease_none_stays a (rn e) e.ip (releaseKey e) ip' h)
+
+theorem apiRelease_not_failed (a : Alloc) (running : Bool) (ip : Nat) (key : Str)
+    (h : (apiRelease a running ip key).2.failed = false) : (apiRelease a running ip key).1.get ip = none := by
+  unfold apiRelease at h ⊢
+  cases hg : a.get ip with
+  | none => simp [hg]
+  | some k =>
+    simp only [hg] at h ⊢
+    split at h
+    · simp [RelOut.failed] at h
+    · split at h
+      · simp [RelOut.failed] at h
+      · rename_i h1 h2
+        rw [if_neg h1, if_neg h2]
+        exact Tbl.get_erase_self a ip
+
+/-- an entry handed to the second loop whose ip is still allocated afterwards is reported unreleased -/
+theorem releaseLoop_consistent (a : Alloc) (rn : Entry → Bool) (es : List Entry) (e : Entry) (he : e ∈ es)
+    (h : (releaseLoop a rn es).1.get e.ip ≠ none) : e.ip ∈ (releaseLoop a rn es).2 := by
+  induction es generalizing a with
+  | nil => cases he
+  | cons x xs ih =>
+    simp only [releaseLoop] at h ⊢
+    rcases List.mem_cons.mp he with rfl | hm
+    · cases hf : (apiRelease a (rn e) e.ip (releaseKey e)).2.failed with
+      | true => simp
+      | false =>
+        exact absurd (releaseLoop_none_stays _ rn xs e.ip (apiRelease_not_failed a (rn e) e.ip (releaseKey e) hf)) h
+    · have := ih _ hm h
+      split
+      · exact List.mem_cons_of_mem _ this
+      · exact this
+
+theorem releaseRequest_consistent (a : Alloc) (pl rn : Entry → Bool) (es : List Entry) (e : Entry) (he : e ∈ es)
+    (h : (releaseRequest a pl rn es).1.get e.ip ≠ none) : e.ip ∈ (releaseRequest a pl rn es).2 := by
+  simp only [releaseRequest] at h ⊢
+  by_cases hr : releasable e (pl e) = true
+  · apply List.mem_append_right
+    exact releaseLoop_consistent a rn _ e (List.mem_filter.mpr ⟨he, hr⟩) h
+  · apply List.mem_append_left
+    exact List.mem_map.mpr ⟨e, List.mem_filter.mpr ⟨he, by simp [hr]⟩, rfl⟩
+
 end Galaxy.Keys
